@@ -855,3 +855,28 @@ def reorder_entries(proj, perm, R=None):
     q.plants.append(Plant(file=proj.cfg_name, start=idx, end=idx + len(needle), kind=old.kind, raw=old.raw,
                           norm=old.norm, ast=old.ast, text=needle))
     return q
+
+
+def with_extra_pattern(proj, fn, raw, R=None):
+    """Same project with `raw` appended to the pattern list of the entry whose key is exactly `fn` (config text rebuilt;
+    the files themselves are unchanged). None if no such entry exists."""
+    import copy
+    idx = [i for i, (key, _p) in enumerate(proj.entries) if key == fn]
+    if len(idx) != 1 or any(key != fn and fn in key for key, _p in proj.entries):
+        return None
+    q = copy.copy(proj)
+    q.entries = [(key, list(pats) + ([raw] if i == idx[0] else [])) for i, (key, pats) in enumerate(proj.entries)]
+    q.files = dict(proj.files)
+    quote = '"' + proj.cur_text + '"' in proj.files[proj.cfg_name]
+    q.files[proj.cfg_name] = build_config(q, R, quote=quote, extra=proj.meta.get("cfg_extra"))
+    old = [pl for pl in proj.plants if pl.file == proj.cfg_name]
+    if len(old) != 1:
+        return None
+    pos = q.files[proj.cfg_name].find(old[0].text)
+    if pos < 0:
+        return None
+    q.plants = [pl for pl in proj.plants if pl.file != proj.cfg_name]
+    q.plants.append(Plant(file=proj.cfg_name, start=pos, end=pos + len(old[0].text), kind=old[0].kind, raw=old[0].raw,
+                          norm=old[0].norm, ast=old[0].ast, text=old[0].text))
+    return q
+
